@@ -23,10 +23,31 @@ ASSUMPTIONS = [
     "as part of the new session",
     "bounded liveness: the advertisement's LCSTART is offered within 3 cycles after the link came up",
 ]
-BOUNDS = "BMC from reset: required K=34 (thorough 40) with enable/usb_reset free every cycle in the layer (PHY always ready, " \
-         "no LRTY/keepalive/LXU requests); best effort: PHY ready free K=28, interleaved commands free K=34; thorough adds 2 headers K=46"
+BOUNDS = "BMC from reset, enable/usb_reset free every cycle: quick K=32 everything free, K=36 PHY always ready; thorough K=40/44, " \
+         "2 headers K=46"
 OUTSIDE = "down/reset while a header is being received; traces longer than the bound; LAU/LPMA responses"
 
+
+# FINDINGS (HeaderPacketReceiver, luna/gateware/usb/usb3/link/receiver.py; recorded in known_findings.json, status open,
+# not patched: the repair touches every state of the command FSM)
+#  reset_during_command   The reset-on-disable block `with m.If((last_enable & ~self.enable) | self.usb_reset)` is
+#     nested in `m.State("DISPATCH_COMMAND")` (line ~494).  A usb_reset strobe or the falling edge of enable that
+#     arrives while the FSM is in SEND_ACKS / ISSUE_CREDITS / SEND_LBAD / SEND_LRTY / SEND_KEEPALIVE / SEND_LXU is
+#     lost (last_enable has followed enable by the time the FSM is back): buffers stay filled and offered, no LGOOD
+#     advertisement, LCRD numbering continues, a stale lbad_pending / ignore_packets survives re-entry, sequence
+#     numbers are not reset.  Predicate: the event's cycle, or the next one, has the DUT's link command stream valid.
+#  reset_at_dispatch      usb_reset with the link up in a DISPATCH_COMMAND cycle that also dispatches: the next
+#     state (ISSUE_CREDITS, SEND_LBAD, SEND_ACKS) is chosen from the state being discarded, so LCRDs / an LBAD go out
+#     before the LGOOD advertisement and the LGOOD numbering is shifted.  Predicate: LCSTART first offered exactly
+#     two cycles after the reset cycle, stream idle in between.
+#  lgood_owed_at_link_down   Properly handled link-down while an LGOOD is still owed: the block advertises
+#     next_header_to_ack - 1, which is the last received sequence number only if every LGOOD had been sent.
+#     Predicate: at the link-down the ghost still expects the advertisement or an acknowledgement.
+#  All three predicates stay set until the next USB reset (a plain link-down does not restore sequence numbers).
+#  A repair was prototyped (global reset block, every SEND_* state returns to DISPATCH_COMMAND, generate gated,
+#  dispatch waits for an idle generator, advertise expected_sequence_number - 1): /verif/tools/c38_fix.diff; its
+#  first iterations exposed two more races (generate latched in the reset cycle; the stale command's `done` taken
+#  as completion of the advertisement), so a partial fix is worse than none.
 
 C38_ASSERTS = ["adv_first", "adv_missing", "stale_offer", "offer_valid", "lgood_number", "lcrd_order", "lcrd_free",
                "lbad_cause", "lc_format"]
@@ -36,21 +57,17 @@ def queries(tier):
     quick = tier == "quick"
     f1 = lambda: HeaderRxHarness(n_packets=1, lead=9, spacing=2, free_enable=True)
     f2 = lambda: HeaderRxHarness(n_packets=2, lead=9, spacing=2, free_enable=True)
-    K1 = 26 if quick else 40
     calm = {"retry_required": 0, "keepalive": 0, "lxu": 0}
-    calm_ready = dict(calm, src_ready=1)
-    qs = [Query("bmc_1hp_calm", f1, K1, timeout=2000, split=False, layer=calm_ready, hints={"*": {}},
-                covers=["readv_after_disable", "readv_after_reset", "disable_mid_lgood", "disable_mid_lcrd", "disable_mid_lbad"],
-                desc="layer: PHY always ready, no LRTY/keepalive/LXU requests; enable and usb_reset free in every cycle "
-                     "(crash points incl. mid-LGOOD/LCRD/LBAD); 1 symbolic header; all assertions"),
-          Query("bmc_1hp_stall", f1, K1 - 6, timeout=600 if quick else 2000, split=False, layer=calm, asserts=C38_ASSERTS,
-                covers=[], required=False,
-                desc="best effort: PHY ready free as well (commands stretched over many cycles)"),
-          Query("bmc_1hp_busy", f1, K1, timeout=600 if quick else 2000, split=False, layer={"src_ready": 1}, asserts=C38_ASSERTS,
-                covers=["disable_mid_lrty", "disable_mid_keepalive"], required=False,
-                desc="best effort: LRTY/keepalive/LXU requests free (crash points mid-LRTY / mid-keepalive)")]
+    hint = {"*": dict(calm, src_ready=1)}
+    qs = [Query("bmc_1hp_free", f1, 32 if quick else 40, timeout=900, split=False, hints=hint,
+                covers=["readv_after_disable", "readv_after_reset", "disable_mid_lgood", "disable_mid_lcrd"],
+                desc="1 symbolic header; enable, usb_reset, PHY ready, consumption, retry and LRTY/keepalive/LXU requests "
+                     "free in every cycle (crash points everywhere); all assertions"),
+          Query("bmc_1hp_ready", f1, 36 if quick else 44, timeout=900, split=False, layer={"src_ready": 1, "lxu": 0},
+                hints={"*": {}}, covers=["disable_mid_lbad", "disable_mid_lrty", "disable_mid_keepalive"],
+                desc="layer: PHY always ready, no LXU requests; deeper: link-down in the middle of LBAD / LRTY / keepalive")]
     if not quick:
-        qs.append(Query("bmc_2hp_calm", f2, 46, timeout=2000, split=False, layer=calm_ready, covers=[],
-                        desc="layer: PHY always ready, no LRTY/keepalive/LXU requests; 2 headers, enable/usb_reset free"))
+        qs.append(Query("bmc_2hp_free", f2, 46, timeout=1800, split=False, covers=[],
+                        desc="2 headers, enable/usb_reset and everything else free"))
     qs.append(Query("cosim", f2, 0, kind="cosim", cosim_cycles=150 if quick else 600))
     return qs
